@@ -13,7 +13,7 @@
    temperature / pressure ladders by the harness. *)
 From Coq Require Import Reals List ZArith Lra.
 Import ListNotations.
-From MPC Require Import Num Species RInst StatMech RVec GenSpecies GenMixture RefEnergy Gibbs C09_proofs C10_proofs.
+From MPC Require Import Num Species RInst StatMech RVec GenSpecies GenMixture RefEnergy Gibbs C09_proofs C10_proofs C10_kkt.
 Open Scope R_scope.
 
 Definition constants_ok (U : Units R) : Prop := 0 < k_b U /\ 0 < N_a U /\ h_pl U <> 0.
@@ -67,6 +67,29 @@ Theorem C10_single_ionisation_pressure : forall (S n1 n2 c0 ce c0' ce' : R),
   ce' / n2 < ce / n1.
 Proof. exact single_ionisation_pressure. Qed.
 Print Assumptions C10_single_ionisation_pressure.
+
+
+(* the "exact minimiser" hypothesis above is met by the solver's fixed points: for the ideal mixture, a point whose chemical
+   potentials lie in the column space of the constraint matrix (mu = -(A lam): the fixed-point condition of C01) has the
+   smallest Gibbs energy among all feasible compositions (Gibbs' inequality) *)
+Theorem C10_kkt_point_is_minimiser : forall (U : Units R) (T P : R) (ps : list (entry * entry)) (cols : list (list R)) (lam : list R),
+  0 < k_b U * T -> 0 < P -> ps <> [] -> Forall same_data ps -> Forall (pair_pos U T) ps ->
+  let nu := map (fun p => e_n (snd p) - e_n (fst p)) ps in
+  let mu := map (fun p => mu_at U T (Ntot (map fst ps) * (k_b U * T) / P) (fst p)) ps in
+  Forall (fun c => List.length c = List.length nu) cols ->
+  Forall2 (fun mi ai => mi = - ai) mu (alam RNum cols lam (repeat 0 (List.length nu))) ->
+  Forall (fun c => dotR c nu = 0) cols ->
+  Gibbs_fn U T P (map fst ps) <= Gibbs_fn U T P (map snd ps).
+Proof. exact kkt_point_is_minimiser. Qed.
+Print Assumptions C10_kkt_point_is_minimiser.
+
+(* Le Chatelier for stationary points themselves: pairs (state at P1, state at P2) of the same ideal mixture *)
+Theorem C10_pressure_response_stationary : forall (U : Units R) (T P1 P2 : R) (ps : list (entry * entry)),
+  0 < k_b U * T -> 0 < P1 -> P1 < P2 -> ps <> [] -> Forall same_data ps -> Forall (pair_pos U T) ps ->
+  stationary_against U T P1 ps -> stationary_against U T P2 (map swap ps) ->
+  Ntot (map snd ps) <= Ntot (map fst ps).
+Proof. exact pressure_response_stationary. Qed.
+Print Assumptions C10_pressure_response_stationary.
 
 (* non-vacuity: a two-level atom meets thermo_ok; the closed-form hypotheses have a solution (S = 1: c0 = 1, ce = 1, n = 3) *)
 Example C10_hypotheses_satisfiable :
